@@ -357,3 +357,22 @@ def judge_trace(rep, bd, events, name, module="MC_Judge", tag="judge", key_of=No
     if events:
         rep.sample(events[len(events) // 2])
     return r
+
+
+def generic_replay(mod, pid, path):
+    """./check <id> --replay <file>: the witness file holds tier, seed and the failing cases; the check is re-run with the same tier and
+    seed against the current tree and reports whether the recorded cases fail again."""
+    with open(path) as f:
+        w = json.load(f)
+    os.environ["VERIF_SEED"] = str(w.get("seed", 0))
+    recorded = {json.dumps(v["key"], sort_keys=True) for v in w.get("violations", [])}
+    print("replaying %d recorded violation(s) of %s (tier %s, seed %s)" % (len(recorded), pid, w.get("tier"), w.get("seed")))
+    for v in w.get("violations", [])[:5]:
+        print("  recorded:", json.dumps(v, default=str)[:500])
+    rc = mod.main(w.get("tier", "quick"))
+    out = os.path.join(REPLAYS, "%s-%s-%d.json" % (pid, w.get("tier", "quick"), seed()))
+    again = set()
+    if rc == 1 and os.path.exists(out):
+        again = {json.dumps(v["key"], sort_keys=True) for v in json.load(open(out)).get("violations", [])}
+    print("REPLAY property=%s recorded=%d reproduced=%d" % (pid, len(recorded), len(recorded & again)))
+    return rc
